@@ -122,8 +122,9 @@ def hostile_requests(TG, rnd, tier, channels=("dismain", "parse", "loadasm")):
                 w = instgen.header(bound=20)
                 for i_ in body:
                     w += i_.words()
-                for ch in ("dismain", "loadasm"):
-                    reqs.append(f"{ch} {instgen.to_bytes(w).hex()}")
+                for ch in channels:
+                    if ch != "parse":
+                        reqs.append(f"{ch} {instgen.to_bytes(w).hex()}")
                 next_ += 1
     stats["extended instructions at the table ends"] = next_
     # the disassembler tracks numeric types over the whole section, the parser only those seen so far: a constant *before* its
